@@ -347,3 +347,19 @@ def r18_6(prog, out):
                         out.holds(key, ci.loc(bb), "%r is matched at the start of the untransformed input" % lit)
             if not found:
                 out.undecided(key, prog.loc(pid), "no starts_with / strip_prefix on the leading literal")
+            # .. and what the parser is given is the request's string as it came, at every call site
+            for cb in prog.facts.lib_bodies():
+                if cb.file.startswith("/") or cb.id == pid:
+                    continue
+                ci = prog.info(cb.id)
+                for bb, t in ci.calls(lambda c: prog.qual(cb, c.target) == pid):
+                    if not t.args:
+                        continue
+                    s2 = sl.of(cb.id, t.args[0])
+                    tr = sorted({c.split("::")[-1] for c in s2.calls} & set(TRANSFORMS))
+                    k2 = "%s:raw-input-at:%s" % (label, prog.short(cb.id))
+                    if tr:
+                        out.violation(k2, ci.loc(bb), "the name is parsed from a copy of the request string that went through %s(): spellings with extra characters around "
+                                      "the name (e.g. a leading '/') are accepted as aliases of the canonical name" % tr[0])
+                    else:
+                        out.holds(k2, ci.loc(bb), "the parser is given the request string untransformed", nontrivial=False)
